@@ -27,14 +27,14 @@ RULE = (
 )
 MUST_HIT = ["region_with_partial_last_window", "ch>=3", "sw1", "sw4", "window_of_1_sample",
             "entry_bytes", "entry_region_fn", "entry_region_method", "entry_raw_lazy_file", "entry_wav_lazy_file",
-            "entry_wav_file", "empty_input", "start_beyond_one_hour", "hundred_regions", "input_region_with_start",
+            "entry_wav_file", "entry_stdin_pipe", "empty_input", "start_beyond_one_hour", "hundred_regions", "input_region_with_start",
             "input_region_with_conflicting_format_kwargs"]
 ASSUMPTIONS = [
     "exact energy oracle (vf/oracles.energy_db); synthesized windows lie >= 3 dB from the threshold (self-checked)",
     "reference segmentation (judged on its own by C04)",
 ]
 BOUNDS = {"quick": dict(n=500, maxwin=30), "thorough": dict(n=6000, maxwin=120)}
-ENTRIES = ("bytes", "region_fn", "region_method", "raw_lazy_file", "wav_lazy_file", "wav_file")
+ENTRIES = ("bytes", "region_fn", "region_method", "raw_lazy_file", "wav_lazy_file", "wav_file", "stdin_pipe")
 
 
 _ctr = [0]
@@ -44,6 +44,20 @@ def run_split(entry, data, rec, kw):
     sr, sw, ch = rec["sr"], rec["sw"], rec["ch"]
     if entry == "bytes":
         return auditok.split(data, sampling_rate=sr, sample_width=sw, channels=ch, **kw)
+    if entry == "stdin_pipe":
+        import sys
+
+        from .c09 import _PipeStdin
+
+        step = max(len(data) // 8, 1)
+        pipe = _PipeStdin(data, [step + 1, max(step - 3, 1), 2, step + 5])
+        old = sys.stdin
+        try:
+            sys.stdin = pipe
+            return list(auditok.split("-", sampling_rate=sr, sample_width=sw, channels=ch, **kw))
+        finally:
+            sys.stdin = old
+            pipe.finish()
     if entry in ("raw_lazy_file", "wav_lazy_file", "wav_file"):
         import os
         import wave
